@@ -13,7 +13,7 @@ STORE_INVS = ["TypeOK", "NeverVersionedFlat", "UniqueVids"]
 def store_consts(**kw):
     c = dict(Buckets={"bkt1", "bkt2"}, KeySetName="nest2", Bodies={"x1", "x2"}, OpNames=CORE_OPS,
              CfgName="plain", MaxVids=0, MaxDepth=0, WithEmpty=False, Ghosts=True,
-             PartNums={1, 2}, PartBodies={"p1", "p2"}, MaxUploads=0, MaxList=2, BadBuckets=set())
+             PartNums={1, 2}, PartBodies={"p1", "p2"}, MaxUploads=0, MaxList=2, BadBuckets=set(), AfterRefusal=False)
     c.update(kw)
     return c
 
@@ -126,6 +126,13 @@ def c03(tier, seed, work):
                ["multimem", "multios"], invariants=["EmitInv"], **common)
     tour_stage(rep, work, "single", "MC_List", list_consts(MaxSet=n, FsDomain=True, Delims={0, 47}, CfgName="single"),
                ["singlemem", "singleos"], invariants=["EmitInv"], **common)
+    # keys with dot-leading segments (.a, a/.b, .a/b): legal keys that look like hidden files to an fs backend
+    tour_stage(rep, work, "dot-segments", "MC_List",
+               list_consts(Alphabet={46, 47, 97}, MaxSet=2, MaxLen=3, PrefixLen=1, FsDomain=True, Delims={0, 47}),
+               ["multimem", "multios", "mem"], invariants=["EmitInv"], **common)
+    tour_stage(rep, work, "dot-segments-single", "MC_List",
+               list_consts(Alphabet={46, 47, 97}, MaxSet=2, MaxLen=3, PrefixLen=1, FsDomain=True, Delims={0, 47}, CfgName="single"),
+               ["singlemem"], invariants=["EmitInv"], **common)
     # richer keys (UTF-8, blanks, characters needing URL escaping) through an
     # order- and structure-preserving substitution of the key bytes
     tour_stage(rep, work, "kv-rich", "MC_List", list_consts(MaxSet=2, MaxLen=2, Delims={0, 47}), ["mem", "bolt", "multimem"],
@@ -223,6 +230,12 @@ def c06(tier, seed, work):
                store_consts(Buckets={"bkt1"}, KeySetName="a", Bodies={"x1"}, OpNames=MP_OPS - {"ListParts", "ListUploads"},
                             MaxUploads=2, Ghosts=False),
                ["mem", "bolt", "multimem"], small=True, **st)
+    # histories that continue after a refused completion (the refusal must leave nothing behind, seen or unseen)
+    tour_stage(rep, work, "mp-after-refusal", "MC_Store",
+               store_consts(Buckets={"bkt1"}, KeySetName="a", Bodies={"x1"}, PartBodies={"p1", "p2"}, MaxUploads=1, MaxList=2,
+                            Ghosts=False, AfterRefusal=True,
+                            OpNames={"CreateBucket", "Initiate", "UploadPart", "Complete", "Abort", "GetObject"}),
+               ["mem", "multimem"], small=True, **st)
     # three part numbers with a gap, lists that skip an uploaded part in the middle
     tour_stage(rep, work, "mp-gaps", "MC_Store",
                store_consts(Buckets={"bkt1"}, KeySetName="a", Bodies={"x1"}, PartNums={1, 2, 5}, PartBodies={"p1"},
@@ -400,6 +413,11 @@ def c01(tier, seed, work):
     thorough = tier == "thorough"
     ops = {"CreateBucket", "PutObject", "PutMeta", "PutMetaB", "PostObject", "PostMeta", "CopyObject", "GetObject",
            "HeadObject", "ListObjects", "DeleteObject"}
+    # copies that bring their own metadata: the destination gets it, the source keeps its own
+    tour_stage(rep, work, "copy-with-metadata", "MC_Store",
+               store_consts(Buckets={"bkt1"}, KeySetName="nest2", Bodies={"x1"}, Ghosts=False,
+                            OpNames={"CreateBucket", "PutMetaB", "PutMeta", "CopyMeta", "CopyObject", "GetObject", "HeadObject"}),
+               ALL4, small=True, invariants=STORE_INVS, properties=["ReadYourWrite", "Frame"])
     st = dict(invariants=STORE_INVS, properties=["ReadYourWrite", "Frame"])
     consts = store_consts(Buckets={"bkt1"}, KeySetName="nest2", Bodies={"x1", "x2"}, WithEmpty=True, OpNames=ops, Ghosts=False)
     for integ, o in ((True, ""), (False, "nointegrity")):
@@ -516,6 +534,11 @@ def c10(tier, seed, work):
     # keys with '.', '..' and empty segments are distinct byte strings on the key-value backends
     tour_stage(rep, work, "keys-dots-kv", "MC_Store",
                store_consts(Buckets={"bkt1"}, KeySetName="dots", Bodies={"x1"}, OpNames=ops - {"CopyObject", "DeleteMulti"}, Ghosts=False),
+               ["mem", "bolt"], small=True, **st)
+    # keys that are prefixes of one another stay independent on the key-value backends (every delete and multi-delete subset)
+    tour_stage(rep, work, "keys-prefix-kv", "MC_Store",
+               store_consts(Buckets={"bkt1"}, KeySetName="list", Bodies={"x1"}, Ghosts=False,
+                            OpNames={"CreateBucket", "PutObject", "GetObject", "DeleteObject", "DeleteMulti", "ListObjects"}),
                ["mem", "bolt"], small=True, **st)
     # the backends' own storage names are never buckets
     bad = {"_meta", ".", ".."}
